@@ -308,6 +308,31 @@ def svalues(s):
     return [list(x) for x in itertools.product(svalues(s[1]), repeat=s[2])]
 
 
+def sextremes(s):
+    """A few values of a LARGE schema (its value set cannot be enumerated): minimum, maximum, a mixed one."""
+    if s[0] == "Bool":
+        return [0, 1, 1]
+    if s[0] == "IntMod":
+        return [0, s[1] - 1, s[1] // 2 + 1 if s[1] > 2 else 0]
+    if s[0] == "List":
+        ex = [sextremes(x) for x in s[1]]
+        return [[e[k] for e in ex] for k in range(3)] + [[e[(i + 1) % 2] for i, e in enumerate(ex)]]
+    ex = sextremes(s[1])
+    return [[ex[k]] * s[2] for k in range(3)] + [[ex[i % 2] for i in range(s[2])], [ex[0]] * (s[2] - 1) + [ex[1]] if s[2] else []]
+
+
+def big_schemas(level):
+    """Schemas beyond the small enumerated ones: long repetitions and lists, wide moduli."""
+    B, I = ("Bool",), lambda m: ("IntMod", m)
+    out = [("Repeat", B, k) for k in (16, 17, 33, 65)] + [("Repeat", I(5), 33), ("Repeat", I(6), 17),
+           ("List", tuple([B, I(5), I(3)] * 6)), ("List", tuple(I(m) for m in range(2, 19))),
+           I(2 ** 17 + 1), I(2 ** 16), I(2 ** 33 - 1), I(2 ** 64 + 1), ("Repeat", I(2 ** 20 + 7), 9),
+           ("Repeat", ("List", (B, I(9))), 33), ("List", (("Repeat", B, 40), I(2 ** 40 + 1), ("Repeat", I(3), 33)))]
+    if level >= 1:
+        out += [("Repeat", B, k) for k in (129, 257, 1025)] + [I(2 ** 128 + 1), I(2 ** 200 - 1), ("Repeat", I(2 ** 64 + 1), 65)]
+    return out
+
+
 def nvalues(s):
     if s[0] == "Bool":
         return 2
@@ -377,17 +402,22 @@ def pack_task(t):
         k = common.sig_hash(sig)
         if k not in viols:
             viols[k] = {"sig": sig, "count": 0, "what": "schema %s, value %r (%s): %s" % (desc, v, mode, text),
-                        "case": {"kind": "pack", "desc": desc, "value": v, "mode": mode, "p": p}}
+                        "case": {"kind": "pack", "desc": desc, "value": v if len(repr(v)) < 300 else repr(v)[:300], "mode": mode, "p": p}}
         viols[k]["count"] += 1
 
     for spec in chunk:
-        desc, vals = sdesc(spec), svalues(spec)
+        big = spec[0] == "BIG"
+        if big:
+            spec = spec[1]
+        desc, vals = sdesc(spec), (sextremes(spec) if big else svalues(spec))
+        if big and len(desc) > 60:
+            desc = desc[:40] + "...(%d chars)" % len(desc)
         mk = lambda P_, spec=spec: sbuild(spec, P_)
         st["schemas"] += 1
         for v in vals:
             for mode in ("plain", "secret", "secret-typed-bool"):
                 H.R.p = p
-                H.reset(bitlength=8)
+                H.reset(bitlength=230 if big else 8)
                 st["executions"] += 1
                 try:
                     pk = mk(P)
@@ -441,6 +471,7 @@ def run(ctx):
         tasks += [("W", n, q) for n in (16, 17, 33, 64, 128) for q in (REC.BN128, REC.BLS12_381, REC.CURVE25519)]
         tasks += [("w", n, q) for n in (3, 5) for q in (REC.BLS12_381, REC.CURVE25519)]
     random.Random(ctx.seed).shuffle(sch)
+    tasks.append(("p", [("BIG", b) for b in big_schemas(1 if ctx.thorough else 0)], p))
     nchunk = common.NCPU * 2
     for i in range(nchunk):
         c = sch[i::nchunk]
@@ -464,7 +495,7 @@ def run(ctx):
     ctx.cov["exhaustive"] = agg.get("undecided", 0) == 0
     ctx.cov["rule"] = ("widths 1..6 x global bitlength 3/4/6 x every value of [-2, 2^w+1]: round trip, acceptance, and (exact "
                        "engine, error checking off) satisfiability / forced result; packing: every schema of the grammar to "
-                       "depth %d (%d schemas) x every value of the schema x plain/secret; states = distinct (schema, unpacked "
+                       "depth %d (%d schemas) x every value of the schema x plain/secret, plus large schemas (repetitions of 16..65 (1025), lists of 17-18 components, moduli up to 2^64+1 (2^200)) on extreme values; states = distinct (schema, unpacked "
                        "value) pairs + search nodes" % (2, len(sch)))
     ctx.sample({"width": 5, "bitlength": 3, "value": 31, "expect": "accepted, 5 bits, satisfiable"})
     ctx.sample({"schema": sdesc(sch[0]), "values": svalues(sch[0])[:4]})
@@ -478,5 +509,7 @@ def replay(case):
         r = width_task((case["n"], case["p"]))
     else:
         s = [x for x in schemas(2) if sdesc(x) == case["desc"]]
+        if not s:
+            s = [("BIG", b) for b in big_schemas(1)]
         r = pack_task((s, case["p"]))
     return {"case": case, "violations": [{"sig": v["sig"], "what": v["what"]} for v in r["viols"].values()]}
